@@ -1,5 +1,11 @@
-//! C04 — population stack. Drives the real `Populations` (inside a real `State`) and the stack
-//! utility components through histories; prints every return value and the final stack.
+//! C04 — population stack. Drives the real `Populations` (inside a real `State`, at the top level or inside
+//! nested child scopes) and the stack utility components through histories; prints every return value and the
+//! final stack. Individuals carry a unique tag as solution and an optional objective value; both are printed on
+//! every read: `N` = evaluated with objective `N`, `(N M)` = evaluated with objective `M`, `(N u)` = not evaluated.
+//!
+//! Witnesses printed for the model: `(ok LOWER UPPER)` after a successful `SplitPopulationByObjectiveValue` (the order
+//! of equal objective values is the sort's business), `(panic H)` after a panic inside a component (`H` = stack height
+//! afterwards; whether the component had already popped is not promised anywhere).
 use hcommon::problems::TagProblem;
 use hcommon::*;
 use mahf::components::utils::populations::*;
@@ -8,54 +14,119 @@ use mahf::{Component, Individual, State};
 
 type P = TagProblem;
 
+fn ind_s(i: &Individual<P>) -> String {
+    let t = *i.solution();
+    match i.get_objective() {
+        None => format!("({t} u)"),
+        Some(o) => {
+            let v = o.value();
+            if v == t as f64 { t.to_string() }
+            else if v >= 0.0 && v.fract() == 0.0 && v < 1e18 { format!("({t} {})", v as u64) }
+            else { format!("({t} {})", fx(v)) }
+        }
+    }
+}
 fn pop_s(p: &[Individual<P>]) -> String {
-    nats(p.iter().map(|i| *i.solution()))
+    list(p.iter().map(ind_s))
+}
+fn mk_ind(t: &Sx) -> Individual<P> {
+    if let Some(tag) = t.nat() {
+        return Individual::new(tag, mahf::SingleObjective::try_from(tag as f64).unwrap());
+    }
+    let v = t.items().unwrap();
+    let tag = v[0].nat().unwrap();
+    match v[1].atom().unwrap() {
+        "u" => Individual::new_unevaluated(tag),
+        m => Individual::new(tag, mahf::SingleObjective::try_from(m.parse::<u64>().unwrap() as f64).unwrap()),
+    }
 }
 fn mk(p: &Sx) -> Vec<Individual<P>> {
-    // evaluated individuals, objective value = tag (needed by SplitPopulationByObjectiveValue)
-    p.items().unwrap().iter().map(|t| {
-        let tag = t.nat().unwrap();
-        Individual::new(tag, mahf::SingleObjective::try_from(tag as f64).unwrap())
-    }).collect()
+    p.items().unwrap().iter().map(mk_ind).collect()
+}
+
+/// An in-place edit of the vector handed out by `current_mut` / `get_current_mut`.
+fn apply_edit(c: &mut Vec<Individual<P>>, e: &Sx) {
+    let u = |x: &Sx| x.nat().unwrap() as usize;
+    match e.head() {
+        Some(("e-push", a)) => c.push(mk_ind(&a[0])),
+        Some(("e-extend", a)) => c.extend(mk(&a[0])),
+        Some(("e-truncate", a)) => c.truncate(u(&a[0])),
+        Some(("e-swaprm", a)) => { c.swap_remove(u(&a[0])); }
+        Some(("e-remove", a)) => { c.remove(u(&a[0])); }
+        Some(("e-insert", a)) => c.insert(u(&a[0]), mk_ind(&a[1])),
+        Some(("e-swap", a)) => c.swap(u(&a[0]), u(&a[1])),
+        Some(("e-reverse", _)) => c.reverse(),
+        Some(("e-clear", _)) => c.clear(),
+        Some(("e-retain", _)) => c.retain(|i| i.is_evaluated()),
+        _ => *c = mk(e),
+    }
+}
+
+/// One operation on the state it is given (which may be a child scope); panics are caught here, so that none ever
+/// crosses `with_inner_state`.
+fn exec_op(state: &mut State<P>, op: &Sx) -> String {
+    let (name, a) = op.head().unwrap();
+    let problem = TagProblem;
+    let arg = |i: usize| a[i].nat().unwrap() as usize;
+    let r: Option<String> = match name {
+        "push" => catch(|| { state.populations_mut().push(mk(&a[0])); "ok".to_string() }),
+        "pop" => catch(|| pop_s(&state.populations_mut().pop())),
+        "trypop" => catch(|| state.populations_mut().try_pop().map(|p| pop_s(&p)).unwrap_or("none".into())),
+        "cur" => catch(|| pop_s(state.populations().current())),
+        "getcur" => catch(|| state.populations().get_current().map(pop_s).unwrap_or("none".into())),
+        "edit" => catch(|| { apply_edit(state.populations_mut().current_mut(), &a[0]); "ok".to_string() }),
+        "tryedit" => catch(|| state.populations_mut().get_current_mut().map(|c| { apply_edit(c, &a[0]); "ok".to_string() }).unwrap_or("none".into())),
+        "peek" => catch(|| pop_s(state.populations().peek(arg(0)))),
+        "trypeek" => catch(|| state.populations().try_peek(arg(0)).map(pop_s).unwrap_or("none".into())),
+        "rot" => catch(|| { state.populations_mut().rotate(arg(0)); "ok".to_string() }),
+        "len" => catch(|| state.populations().len().to_string()),
+        "empty" => catch(|| b(state.populations().is_empty())),
+        "reset" => catch(|| { *state.populations_mut() = Populations::<P>::default(); "ok".to_string() }),
+        "c-rot" | "c-clear" | "c-dup" | "c-ileave" | "c-split" => {
+            let c: Box<dyn Component<P>> = match name {
+                "c-rot" => RotatePopulations::new(arg(0)),
+                "c-clear" => ClearPopulation::new(),
+                "c-dup" => DuplicatePopulation::new(),
+                "c-split" => SplitPopulationByObjectiveValue::new(),
+                _ => InterleavePopulations::new(),
+            };
+            let r = catch(|| match c.execute(&problem, state) {
+                Ok(()) => "ok".to_string(),
+                Err(_) => "(e exec)".to_string(),
+            });
+            Some(match r {
+                None => format!("(panic {})", state.populations().len()),
+                Some(s) if s == "ok" && name == "c-split" => {
+                    let pops = state.populations();
+                    let l = pops.try_peek(0).map(pop_s).unwrap_or("none".into());
+                    let u = pops.try_peek(1).map(pop_s).unwrap_or("none".into());
+                    format!("(ok {l} {u})")
+                }
+                Some(s) => s,
+            })
+        }
+        _ => panic!("unknown op {name}"),
+    };
+    r.unwrap_or("panic".into())
+}
+
+/// `op` executed inside `k` nested child scopes.
+fn scoped(state: &mut State<P>, k: u64, op: &Sx) -> String {
+    if k == 0 { return exec_op(state, op); }
+    let mut out = String::new();
+    let r = state.with_inner_state(|s| { out = scoped(s, k - 1, op); Ok(()) });
+    if r.is_err() { return "(e scope)".into(); }
+    out
 }
 
 fn run_case(input: &Sx) -> String {
     let (_, ops) = input.head().unwrap();
     let mut state: State<P> = State::new();
     state.insert(Populations::<P>::new());
-    let problem = TagProblem;
     let mut outs = vec![];
     for op in ops {
         let (name, a) = op.head().unwrap();
-        let r: Option<String> = match name {
-            "push" => catch(|| { state.populations_mut().push(mk(&a[0])); "ok".to_string() }),
-            "pop" => catch(|| pop_s(&state.populations_mut().pop())),
-            "trypop" => catch(|| state.populations_mut().try_pop().map(|p| pop_s(&p)).unwrap_or("none".into())),
-            "cur" => catch(|| pop_s(state.populations().current())),
-            "getcur" => catch(|| state.populations().get_current().map(pop_s).unwrap_or("none".into())),
-            "edit" => catch(|| { *state.populations_mut().current_mut() = mk(&a[0]); "ok".to_string() }),
-            "tryedit" => catch(|| state.populations_mut().get_current_mut().map(|c| { *c = mk(&a[0]); "ok".to_string() }).unwrap_or("none".into())),
-            "peek" => catch(|| pop_s(state.populations().peek(a[0].nat().unwrap() as usize))),
-            "trypeek" => catch(|| state.populations().try_peek(a[0].nat().unwrap() as usize).map(pop_s).unwrap_or("none".into())),
-            "rot" => catch(|| { state.populations_mut().rotate(a[0].nat().unwrap() as usize); "ok".to_string() }),
-            "len" => catch(|| state.populations().len().to_string()),
-            "empty" => catch(|| b(state.populations().is_empty())),
-            "c-rot" | "c-clear" | "c-dup" | "c-ileave" | "c-split" => {
-                let c: Box<dyn Component<P>> = match name {
-                    "c-rot" => RotatePopulations::new(a[0].nat().unwrap() as usize),
-                    "c-clear" => ClearPopulation::new(),
-                    "c-dup" => DuplicatePopulation::new(),
-                    "c-split" => SplitPopulationByObjectiveValue::new(),
-                    _ => InterleavePopulations::new(),
-                };
-                catch(|| match c.execute(&problem, &mut state) {
-                    Ok(()) => "ok".to_string(),
-                    Err(_) => "(e exec)".to_string(),
-                })
-            }
-            _ => panic!("unknown op {name}"),
-        };
-        outs.push(r.unwrap_or("panic".into()));
+        outs.push(if name == "in" { scoped(&mut state, a[0].nat().unwrap(), &a[1]) } else { exec_op(&mut state, op) });
     }
     // final stack, top first, through the public accessors only
     let pops = state.populations();
@@ -63,39 +134,89 @@ fn run_case(input: &Sx) -> String {
     list([tagged("outs", outs), tagged("stack", stack)])
 }
 
-struct Gen { rng: Sm, next_tag: u64 }
+const BIG: [u64; 3] = [1 << 32, 1 << 63, u64::MAX];
+
+/// How a generated history fills its individuals.
+#[derive(Clone, Copy, PartialEq)]
+enum Flavour { Plain, Ties, Mixed }
+
+struct Gen { rng: Sm, next_tag: u64, fl: Flavour }
 impl Gen {
+    fn ind(&mut self) -> String {
+        self.next_tag += 1;
+        let t = self.next_tag;
+        match self.fl {
+            Flavour::Plain => t.to_string(),
+            Flavour::Ties => format!("({t} {})", self.rng.below(3)),
+            Flavour::Mixed => match self.rng.below(10) {
+                0..=1 => format!("({t} u)"),
+                2..=5 => format!("({t} {})", self.rng.below(4)),
+                _ => t.to_string(),
+            },
+        }
+    }
     fn pop(&mut self, max: u64) -> String {
         let n = self.rng.below(max + 1);
-        let v: Vec<u64> = (0..n).map(|_| { self.next_tag += 1; self.next_tag }).collect();
-        nats(v)
+        list((0..n).map(|_| self.ind()))
     }
-    fn op(&mut self, height_hint: u64) -> String {
-        let r = self.rng.below(100);
-        let h = height_hint;
+    /// An argument around the height, sometimes far above it.
+    fn near(&mut self, h: u64, slack: u64) -> u64 {
+        if self.rng.chance(1, 25) { *self.rng.pick(&BIG) } else { self.rng.below(h + slack) }
+    }
+    fn edit(&mut self) -> String {
+        match self.rng.below(14) {
+            0..=2 => self.pop(3),
+            3..=4 => format!("(e-push {})", self.ind()),
+            5 => format!("(e-extend {})", self.pop(3)),
+            6 => format!("(e-truncate {})", self.near(3, 2)),
+            7 => format!("(e-swaprm {})", self.near(3, 1)),
+            8 => format!("(e-remove {})", self.near(3, 1)),
+            9 => format!("(e-insert {} {})", self.near(3, 2), self.ind()),
+            10 => format!("(e-swap {} {})", self.near(3, 1), self.near(3, 1)),
+            11 => "(e-reverse)".into(),
+            12 => "(e-clear)".into(),
+            _ => "(e-retain)".into(),
+        }
+    }
+    fn op(&mut self, h: u64) -> String {
+        let r = self.rng.below(104);
         match r {
-            0..=21 => format!("(push {})", self.pop(3)),
+            0..=21 => format!("(push {})", self.pop(4)),
             22..=29 => "(pop)".into(),
             30..=35 => "(trypop)".into(),
             36..=39 => "(cur)".into(),
             40..=43 => "(getcur)".into(),
-            44..=48 => format!("(edit {})", self.pop(3)),
-            49..=51 => format!("(tryedit {})", self.pop(2)),
-            52..=58 => format!("(peek {})", self.rng.below(h + 2)),
-            59..=66 => format!("(trypeek {})", self.rng.below(h + 2)),
-            67..=78 => format!("(rot {})", self.rng.below(h + 2)),
+            44..=48 => format!("(edit {})", self.edit()),
+            49..=51 => format!("(tryedit {})", self.edit()),
+            52..=58 => format!("(peek {})", self.near(h, 2)),
+            59..=66 => format!("(trypeek {})", self.near(h, 2)),
+            67..=78 => format!("(rot {})", self.near(h, 2)),
             79..=81 => "(len)".into(),
             82..=83 => "(empty)".into(),
-            84..=90 => format!("(c-rot {})", self.rng.below(h + 3)),
+            84..=90 => format!("(c-rot {})", self.near(h, 3)),
             91..=92 => "(c-clear)".into(),
             93..=94 => "(c-dup)".into(),
-            95..=96 => "(c-split)".into(),
-            _ => "(c-ileave)".into(),
+            95..=98 => "(c-split)".into(),
+            99..=102 => "(c-ileave)".into(),
+            _ => "(reset)".into(),
         }
+    }
+    /// A random history; `wrap` puts every operation into 0..=4 nested child scopes.
+    fn history(&mut self, len: u64, wrap: bool) -> Vec<String> {
+        let mut ops = vec![];
+        let mut h: i64 = 0;
+        for _ in 0..len {
+            let o = self.op(h.max(0) as u64);
+            if o.starts_with("(push") || o.starts_with("(c-split") { h += 1 }
+            else if o.starts_with("(pop") || o.starts_with("(trypop") || o.starts_with("(c-ileave") { h = (h - 1).max(0) }
+            else if o.starts_with("(reset") { h = 0 }
+            ops.push(if wrap { format!("(in {} {o})", self.rng.below(5)) } else { o });
+        }
+        ops
     }
 }
 
-/// All op shapes used by the exhaustive enumeration (small parameters).
+/// All op shapes used by the exhaustive enumeration (small parameters, boundary arguments, every kind of individual).
 fn alphabet(tag: &mut u64) -> Vec<String> {
     let mut t = || { *tag += 1; *tag };
     let mut v = vec![
@@ -104,6 +225,12 @@ fn alphabet(tag: &mut u64) -> Vec<String> {
         format!("(edit ({}))", t()), format!("(tryedit ({}))", t()),
         "(len)".into(), "(empty)".into(), "(c-clear)".into(), "(c-dup)".into(), "(c-ileave)".into(), "(c-split)".into(),
         format!("(push ({} {} {}))", t() + 7, t(), t() + 3),
+        // equal objective values, an individual that is not evaluated
+        format!("(push (({} 5) ({} 5) ({} 1)))", t(), t(), t()), format!("(push (({} u) {}))", t(), t()),
+        // in-place edits, one of them panicking inside the edit on short populations
+        format!("(edit (e-push {}))", t()), "(tryedit (e-swaprm 1))".into(), "(edit (e-truncate 1))".into(),
+        "(reset)".into(),
+        format!("(peek {})", u64::MAX), format!("(trypeek {})", u64::MAX), format!("(rot {})", u64::MAX), format!("(c-rot {})", u64::MAX),
     ];
     for d in 0..3 { v.push(format!("(peek {d})")); v.push(format!("(trypeek {d})")); }
     for n in 0..4 { v.push(format!("(rot {n})")); v.push(format!("(c-rot {n})")); }
@@ -152,19 +279,105 @@ fn main() {
             emit("c-rotn", ops);
         }
     }
-    // 3. random long histories
-    let n_rand = if a.thorough { 20000 } else { 1500 };
-    let mut g = Gen { rng: Sm::new(a.seed), next_tag: 1000 };
-    for _ in 0..n_rand {
-        let len = g.rng.range(10, if a.thorough { 200 } else { 60 });
-        let mut ops = vec![];
-        let mut h: i64 = 0;
-        for _ in 0..len {
-            let o = g.op(h.max(0) as u64);
-            if o.starts_with("(push") || o.starts_with("(c-split") { h += 1 } else if o.starts_with("(pop") || o.starts_with("(trypop") || o.starts_with("(c-ileave") { h = (h - 1).max(0) }
-            ops.push(o);
+    // 3. boundary arguments: every height h ≤ 4, every depth-taking accessor, arguments h-1, h, h+1 and far above.
+    for h in 0..=4u64 {
+        let mut args: Vec<u64> = vec![h.saturating_sub(1), h, h + 1];
+        args.extend(BIG);
+        args.push(u64::MAX - 1);
+        for &x in &args {
+            for name in ["peek", "trypeek", "rot", "c-rot"] {
+                let mut ops: Vec<String> = (0..h).map(|i| format!("(push ({} {}))", 2 * i + 1, 2 * i + 2)).collect();
+                ops.push(format!("({name} {x})"));
+                ops.push("(len)".into());
+                ops.push("(trypeek 0)".into());
+                emit("bound", ops);
+            }
         }
+    }
+    // 4. in-place edits: every edit with every index around the length, through both accessors, heights 0..2.
+    {
+        let mut tag = 500u64;
+        for h in 0..=2u64 {
+            for size in 0..=3u64 {
+                if h == 0 && size > 0 { continue; }
+                let mut edits: Vec<String> = vec!["(e-reverse)".into(), "(e-clear)".into(), "(e-retain)".into(),
+                    "(e-push 900)".into(), "(e-push (901 u))".into(), "(e-extend (902 (903 2)))".into(), "(e-extend ())".into(), "(904 905)".into(), "()".into()];
+                let mut idxs: Vec<u64> = (0..=size + 1).collect();
+                idxs.push(u64::MAX);
+                for &i in &idxs {
+                    edits.push(format!("(e-truncate {i})"));
+                    edits.push(format!("(e-swaprm {i})"));
+                    edits.push(format!("(e-remove {i})"));
+                    edits.push(format!("(e-insert {i} 906)"));
+                    for &j in &idxs { edits.push(format!("(e-swap {i} {j})")); }
+                }
+                for e in edits {
+                    for acc in ["edit", "tryedit"] {
+                        let mut ops: Vec<String> = (0..h).map(|k| {
+                            let n = if k + 1 == h { size } else { 2 };
+                            let inds: Vec<String> = (0..n).map(|_| { tag += 1; if tag % 3 == 0 { format!("({tag} u)") } else { tag.to_string() } }).collect();
+                            format!("(push {})", list(inds))
+                        }).collect();
+                        ops.push(format!("({acc} {e})"));
+                        ops.push("(getcur)".into());
+                        emit("edit", ops);
+                    }
+                }
+            }
+        }
+    }
+    // 5. seeded random histories (three flavours of individuals), at the top level and inside nested child scopes
+    let n_rand = if a.thorough { 20000 } else { 4000 };
+    let mut g = Gen { rng: Sm::new(a.seed), next_tag: 1000, fl: Flavour::Plain };
+    for i in 0..n_rand {
+        g.fl = [Flavour::Plain, Flavour::Ties, Flavour::Mixed][i % 3];
+        let len = g.rng.range(10, if a.thorough { 200 } else { 60 });
+        let ops = g.history(len, false);
         emit("rand", ops);
+    }
+    let n_scoped = if a.thorough { 4000 } else { 1000 };
+    for i in 0..n_scoped {
+        g.fl = [Flavour::Plain, Flavour::Mixed][i % 2];
+        let len = g.rng.range(5, if a.thorough { 80 } else { 40 });
+        let ops = g.history(len, true);
+        emit("scoped", ops);
+    }
+    // 6. split: populations of 0..9 individuals with few distinct objective values, sometimes one not evaluated,
+    //    on top of 0..2 other populations; reads afterwards.
+    let n_split = if a.thorough { 6000 } else { 1500 };
+    for i in 0..n_split {
+        g.fl = if i % 4 == 3 { Flavour::Mixed } else { Flavour::Ties };
+        let below = g.rng.below(3);
+        let mut ops: Vec<String> = (0..below).map(|_| format!("(push {})", g.pop(2))).collect();
+        // mostly small; sometimes large enough that `sort_unstable` really leaves insertion sort (> 20 elements)
+        let n = if g.rng.chance(1, 6) { g.rng.range(21, 48) } else { g.rng.below(10) };
+        let inds: Vec<String> = (0..n).map(|_| g.ind()).collect();
+        ops.push(format!("(push {})", list(inds)));
+        if g.rng.chance(1, 5) { ops.push("(c-dup)".into()); }
+        ops.push("(c-split)".into());
+        ops.push("(peek 0)".into());
+        ops.push("(trypeek 1)".into());
+        if g.rng.chance(1, 2) { ops.push("(c-ileave)".into()); ops.push("(c-split)".into()); }
+        ops.push("(len)".into());
+        emit("split", ops);
+    }
+    // 7. deep stacks and larger populations: 15..40 populations, then rotations / peeks near the height.
+    let n_deep = if a.thorough { 600 } else { 150 };
+    for _ in 0..n_deep {
+        g.fl = Flavour::Plain;
+        let h = g.rng.range(15, 40);
+        let mut ops: Vec<String> = (0..h).map(|_| format!("(push {})", g.pop(12))).collect();
+        for _ in 0..g.rng.range(5, 25) {
+            let x = match g.rng.below(4) { 0 => h, 1 => h - 1, 2 => h + 1, _ => g.rng.below(h + 2) };
+            ops.push(match g.rng.below(6) {
+                0 => format!("(peek {x})"),
+                1 => format!("(trypeek {x})"),
+                2 | 3 => format!("(rot {x})"),
+                4 => format!("(c-rot {x})"),
+                _ => "(c-ileave)".into(),
+            });
+        }
+        emit("deep", ops);
     }
     out.finish();
 }
